@@ -341,7 +341,7 @@ func (w *Worker) runItem(it workItem, q *queue) {
 	if nsmp == 0 {
 		nsmp = 3
 	}
-	if len(job.res.Samples) < nsmp && end == "done" && !it.conc && sampleVec != nil && (len(job.res.Samples) < 2 || traceHash(w.trace)%5 == 0) {
+	if len(job.res.Samples) < nsmp && end == "done" && !it.conc && sampleVec != nil && len(w.viols) == 0 && (len(job.res.Samples) < 2 || traceHash(w.trace)%5 == 0) {
 		job.res.Samples = append(job.res.Samples, PathSample{Trace: traceStr(w.trace), PCSize: len(w.pc), Vector: sampleVec, Kinds: sampleKinds, End: end})
 	}
 	job.stats.add(&w.st)
